@@ -99,6 +99,9 @@ func execC01(t *testing.T, c *sim.Case) *sim.Result {
 				return
 			}
 			checkPlain(w, model, ncf, nkeys)
+			if c.CfgInt("iter_check", 0) == 1 && w.DB != nil {
+				iterCheckPlain(w, model, nkeys)
+			}
 		}
 		res.Nontrivial = res.Faults["flush"] > 0 || res.Faults["clean_reopen"] > 0
 	})
@@ -163,6 +166,9 @@ func diagnose(w *World, cf kv.ColumnFamily, key []byte, exp *plainVal, found boo
 	sig := map[string]string{"expected_stored": "no", "same_version": "no"}
 	if ArtPrefixPair(w, key) {
 		sig["art_prefix_pair"] = "yes"
+	}
+	if GCRan(w) {
+		sig["vlog_gc_ran"] = "yes"
 	}
 	var expCopy, gotCopy = -1, -1
 	for i, cp := range copies {
